@@ -386,6 +386,10 @@ def add_clustering(frng, problem, mats, tight=False):
     general routing data or matrix errorCodes."""
     if general_routing({'problem': problem, 'matrices': mats}) or mats[0].get('errorCodes'):
         return False
+    if any(sh.get('breaks') or sh.get('reloads') for v in problem['fleet']['vehicles'] for sh in v['shifts']):
+        # a clustered stop in a tour with reserved times, or with break / reload activities (their accounting reads the end of the
+        # previous activity as the arrival, which a commute back to the stop shifts), is outside the rendered fragment
+        return False
     m = mats[0]
     n = matrix_size(m)
     if n < 2:
@@ -436,7 +440,7 @@ def add_clustering(frng, problem, mats, tight=False):
 FEATURES4 = ('replace', 'reqbreak', 'cluster')
 FEATURE4_ADD = {'replace': add_replacements, 'reqbreak': add_required_breaks, 'cluster': add_clustering}
 # what the plugins built on the full checker (C01, C02, C03) pass as `allow=`: general routing data + every round-four feature
-ALLOW_E2E = ('tdm', 'replace', 'reqbreak')
+ALLOW_E2E = ('tdm', 'replace', 'reqbreak', 'cluster')
 
 
 def add_routing_features(frng, problem, matrix, feats):
@@ -1152,6 +1156,11 @@ def rb_reported_twice(tour):
     return both[0] if both else None
 
 
+def tour_has_cluster(tour):
+    """python twin of ValidX.is_cluster_tour: some stop reports parking or some activity carries a commute field"""
+    return any(st.get('parking') is not None or any(a.get('commute') is not None for a in st['activities']) for st in tour['stops'])
+
+
 def rb_driving_excess(p, tour):
     """seconds of DRIVING the tour statistic reports beyond the matrix durations of its legs (stops without location left out), when
     that excess is the total duration of some of the required breaks the tour reports INSIDE stops (0 otherwise): create_reserved_
@@ -1310,8 +1319,9 @@ def unsupported(p, s):
                 if stop.get('parking') is not None:
                     secs(stop['parking']['start']), secs(stop['parking']['end'])
                 clustered = stop.get('parking') is not None or any(a.get('commute') is not None for a in stop['activities'])
-                if clustered and tour_required_breaks(p, t):
-                    return 'clustered stop in a tour of a shift with required breaks'
+                if clustered and (tour_required_breaks(p, t) or
+                                  any(a.get('type') in ('break', 'reload', 'recharge') for x in t['stops'] for a in x['activities'])):
+                    return 'clustered stop in a tour with break / reload activities or required breaks'
                 secs(stop['time']['arrival']), secs(stop['time']['departure'])
                 for a in stop['activities']:
                     if a.get('commute') is not None and not cl:
@@ -1926,6 +1936,20 @@ def py_accounting(p, s):
                     v.append(('ARequiredBreak', k))
             elif not _assignable(bacts, optional_breaks(shift), _break_fits(facts[0]['end'] if facts else 0)):
                 v.append(('ABreak', k))
+    # ValidX.member_viols: an activity that carries a commute field belongs to a plan job with exactly one task that is not listed
+    # in clustering.filtering.excludeJobIds
+    cl = pr['plan'].get('clustering')
+    excl = set((cl.get('filtering') or {}).get('excludeJobIds') or []) if cl else set()
+    byid = {j['id']: j for j in pr['plan']['jobs']}
+    for k, t in enumerate(tours):
+        i = 0
+        for st in t['stops']:
+            for a in st['activities']:
+                if a.get('commute') is not None:
+                    j = byid.get(a.get('jobId'))
+                    if not (cl and a.get('type') in jobkinds and j is not None and len(tasks_of(j)) == 1 and j['id'] not in excl):
+                        v.append(('AClusterMember', k, i))
+                i += 1
     return sorted(v)
 
 
